@@ -35,12 +35,27 @@ Qed.
 Lemma self_res_exp_feats m e : map self_res (exp_feats m e) = exp_feats m e.
 Proof. unfold exp_feats. apply map_flat_map_fix. intros f. apply self_res_render_feat. Qed.
 
-Lemma self_res_exp_reply m p : map self_res (exp_reply m p) = exp_reply m p.
+Lemma self_res_exp_reply_of m p l : map self_res (exp_reply_of m p l) = exp_reply_of m p l.
 Proof.
-  unfold exp_reply. simpl. f_equal. rewrite !map_app. f_equal.
+  unfold exp_reply_of. simpl. f_equal. rewrite !map_app. f_equal.
   - rewrite map_map. reflexivity.
   - f_equal. apply map_flat_map_fix. intros e. apply self_res_exp_feats.
 Qed.
+
+Lemma self_res_exp_reply m p : map self_res (exp_reply m p) = exp_reply m p.
+Proof. apply self_res_exp_reply_of. Qed.
+
+(* whatever an announced address resolves to, the announcement itself is the feature's *)
+Lemma self_res_render_feat_any e f r : map self_res (render_feat e f r) = render_feat e f (Some f).
+Proof.
+  unfold render_feat. destruct r as [g|]; simpl; (f_equal;
+    induction (sort_ops (f_ops f)) as [|[fn [[[rd rp] w] wp]] l IH]; simpl; [reflexivity|];
+    rewrite IH; reflexivity).
+Qed.
+
+Lemma map_flat_map {A B C} (h : B -> C) (g : A -> list B) (l : list A) :
+  map h (flat_map g l) = flat_map (fun a => map h (g a)) l.
+Proof. induction l as [|a l IH]; simpl; [reflexivity|]. rewrite map_app, IH. reflexivity. Qed.
 
 Lemma self_res_exp_notifs m e lsc b : map self_res (exp_notifs m e lsc b) = exp_notifs m e lsc b.
 Proof.
@@ -166,7 +181,7 @@ Qed.
 (* ---------- the invariant ---------- *)
 
 Definition mst_of (s : st) (ids : list (N * N)) : mst :=
-  {| m_objs := objs s; m_ids := ids; m_members := members s; m_subs := subs s; m_thr := thr s |}.
+  {| m_objs := objs s; m_ids := ids; m_members := members s; m_subs := subs s; m_thr := thr s; m_rds := rds s |}.
 
 Record Good (s : st) (ids : list (N * N)) : Prop := {
   g_bound : forall e id, handed e id ids = true -> (id < ctr_of (ctrs s) e)%N;
@@ -225,8 +240,54 @@ Qed.
 
 Lemma render_reply_exp s ids p : Good s ids -> render_reply s p = exp_reply (mst_of s ids) p.
 Proof.
-  intros G. unfold render_reply, exp_reply. f_equal. f_equal. f_equal.
+  intros G. unfold render_reply, exp_reply, render_reply_of, exp_reply_of. f_equal. f_equal. f_equal.
   apply flat_map_ext_in. intros e He. apply render_feats_exp; [exact G|]. apply memN_In. exact He.
+Qed.
+
+(* the reply built from any entity list: its content is the expected one, whatever resolves *)
+Lemma self_res_render_feats s ids e : map self_res (render_feats s e) = exp_feats (mst_of s ids) e.
+Proof.
+  unfold render_feats, exp_feats. change (mfeats (mst_of s ids) e) with (feats_of s e).
+  rewrite map_flat_map. apply flat_map_ext_in. intros f _. apply self_res_render_feat_any.
+Qed.
+
+Lemma self_res_render_reply_of s ids p l :
+  map self_res (render_reply_of s p l) = exp_reply_of (mst_of s ids) p l.
+Proof.
+  unfold render_reply_of, exp_reply_of. simpl. f_equal. rewrite !map_app. f_equal.
+  - rewrite map_map. reflexivity.
+  - f_equal. rewrite map_flat_map. apply flat_map_ext_in. intros e _. apply self_res_render_feats.
+Qed.
+
+(* ... and the features of the entities that are members now resolve to themselves *)
+Lemma member_res_render_feat mem e f r :
+  (memN e mem = true -> r = Some f) -> map (member_res mem) (render_feat e f r) = render_feat e f r.
+Proof.
+  intros Hr. unfold render_feat.
+  assert (Hfn : forall l : list (N * opflags),
+            map (member_res mem) (map (fun x : N * opflags => let '(fn, (rd, rp, w, wp)) := x in RFn fn rd rp w wp) l) =
+            map (fun x : N * opflags => let '(fn, (rd, rp, w, wp)) := x in RFn fn rd rp w wp) l).
+  { induction l as [|[fn [[[rd rp] w] wp]] l IH]; simpl; [reflexivity|]. rewrite IH. reflexivity. }
+  destruct (memN e mem) eqn:Em.
+  - rewrite (Hr eq_refl). simpl. rewrite Em, Hfn. reflexivity.
+  - destruct r as [g|]; simpl; rewrite Em, Hfn; reflexivity.
+Qed.
+
+Lemma member_res_render_reply_of s ids p l :
+  Good s ids -> map (member_res (members s)) (render_reply_of s p l) = render_reply_of s p l.
+Proof.
+  intros G. unfold render_reply_of. simpl. f_equal. rewrite !map_app. f_equal.
+  - rewrite map_map. reflexivity.
+  - f_equal. rewrite map_flat_map. apply flat_map_ext_in. intros e _.
+    unfold render_feats. rewrite map_flat_map. apply flat_map_ext_in. intros f Hf.
+    apply member_res_render_feat. intros Hm. exact (resolve_in s ids e f G Hm Hf).
+Qed.
+
+Lemma judge_reply_ok s ids p l :
+  Good s ids -> judge_reply (members s) (render_reply_of s p l) (exp_reply_of (mst_of s ids) p l) = [].
+Proof.
+  intros G. unfold judge_reply.
+  rewrite (self_res_render_reply_of s ids), (member_res_render_reply_of s ids p l G), !same_refl. reflexivity.
 Qed.
 
 Lemma render_notifs_exp s ids e lsc b :
@@ -348,7 +409,7 @@ Qed.
 
 Lemma good_thr s ids t :
   Good s ids ->
-  Good {| objs := objs s; ctrs := ctrs s; members := members s; subs := subs s; thr := remove_N t (thr s) |} ids.
+  Good {| objs := objs s; ctrs := ctrs s; members := members s; subs := subs s; thr := remove_N t (thr s); rds := rds s |} ids.
 Proof.
   intros G. destruct G as [G1 G2 G3 G4 G5 G6 G7 G8]. constructor; simpl; auto.
   intros t' e ty role H. rewrite lt_assoc_remove in H. destruct (N.eqb t' t); [discriminate|].
@@ -356,11 +417,15 @@ Proof.
 Qed.
 
 Lemma good_members s ids l :
-  Good s ids -> Good {| objs := objs s; ctrs := ctrs s; members := l; subs := subs s; thr := thr s |} ids.
+  Good s ids -> Good {| objs := objs s; ctrs := ctrs s; members := l; subs := subs s; thr := thr s; rds := rds s |} ids.
 Proof. intros G. destruct G as [G1 G2 G3 G4 G5 G6 G7 G8]. constructor; simpl; auto. Qed.
 
 Lemma good_subs s ids l :
-  Good s ids -> Good {| objs := objs s; ctrs := ctrs s; members := members s; subs := l; thr := thr s |} ids.
+  Good s ids -> Good {| objs := objs s; ctrs := ctrs s; members := members s; subs := l; thr := thr s; rds := rds s |} ids.
+Proof. intros G. destruct G as [G1 G2 G3 G4 G5 G6 G7 G8]. constructor; simpl; auto. Qed.
+
+Lemma good_rds s ids l :
+  Good s ids -> Good {| objs := objs s; ctrs := ctrs s; members := members s; subs := subs s; thr := thr s; rds := l |} ids.
 Proof. intros G. destruct G as [G1 G2 G3 G4 G5 G6 G7 G8]. constructor; simpl; auto. Qed.
 
 Lemma memN_app x l : memN x (l ++ [x]) = true.
@@ -372,7 +437,7 @@ Lemma step_inv s m o :
   Inv s m ->
   snd (mon m o (snd (step s o))) = [] /\ Inv (fst (step s o)) (fst (mon m o (snd (step s o)))).
 Proof.
-  intros [ids [-> G]]. destruct o as [e ty|e|e|e ty role desc fns|e fid fn r w ps|e|e ty role|t e ty role|t|p c|p c|p];
+  intros [ids [-> G]]. destruct o as [e ty|e|e|e ty role desc fns|e fid fn r w ps|e|e ty role|t e ty role|t|p c|p c|p|t p|t];
     unfold step, step_gen, mon; simpl.
   - (* NewEntity *)
     destruct (assoc_N (Npos e) (objs s)) as [o|] eqn:Eo; simpl; rewrite ?expect_ok; simpl.
@@ -407,23 +472,23 @@ Proof.
     destruct (assoc_N (Npos e) (objs s)) as [o|] eqn:Eo; simpl.
     + destruct (memN (Npos e) (members s)) eqn:Em; simpl.
       * rewrite ?expect_ok. split; [reflexivity|]. exists ids. split; [reflexivity | exact G].
-      * set (s1 := {| objs := objs s; ctrs := ctrs s; members := members s ++ [Npos e]; subs := subs s; thr := thr s |}).
+      * set (s1 := {| objs := objs s; ctrs := ctrs s; members := members s ++ [Npos e]; subs := subs s; thr := thr s; rds := rds s |}).
         assert (G1 : Good s1 ids) by (apply good_members; exact G).
         rewrite (render_notifs_exp s1 ids (Npos e) 1 true G1) by (intros _; apply memN_app).
         change (mst_of s1 ids) with
-          {| m_objs := objs s; m_ids := ids; m_members := members s ++ [Npos e]; m_subs := subs s; m_thr := thr s |}.
+          {| m_objs := objs s; m_ids := ids; m_members := members s ++ [Npos e]; m_subs := subs s; m_thr := thr s; m_rds := rds s |}.
         rewrite judge_announce_ok by apply self_res_exp_notifs.
         split; [reflexivity|]. exists ids. split; [reflexivity | exact G1].
     + rewrite ?expect_ok. split; [reflexivity|]. exists ids. split; [reflexivity | exact G].
   - (* RemoveEntity *)
     destruct (assoc_N (Npos e) (objs s)) as [o|] eqn:Eo; simpl.
     + set (s1 := {| objs := objs s; ctrs := ctrs s; members := filter (fun x => negb (N.eqb x (Npos e))) (members s);
-                    subs := subs s; thr := thr s |}).
+                    subs := subs s; thr := thr s; rds := rds s |}).
       assert (G1 : Good s1 ids) by (apply good_members; exact G).
       rewrite (render_notifs_exp s1 ids (Npos e) 2 false G1) by discriminate.
       change (mst_of s1 ids) with
         {| m_objs := objs s; m_ids := ids; m_members := filter (fun x => negb (N.eqb x (Npos e))) (members s);
-           m_subs := subs s; m_thr := thr s |}.
+           m_subs := subs s; m_thr := thr s; m_rds := rds s |}.
       rewrite judge_announce_ok by apply self_res_exp_notifs.
       split; [reflexivity|]. exists ids. split; [reflexivity | exact G1].
     + rewrite ?expect_ok. split; [reflexivity|]. exists ids. split; [reflexivity | exact G].
@@ -483,7 +548,7 @@ Proof.
       * rewrite ?expect_ok. split; [reflexivity|]. exists ids. split; [reflexivity | exact G].
   - (* GCreate *)
     destruct (assoc_N t (thr s)) as [[[e ty] role]|] eqn:Et; simpl.
-    + set (s0 := {| objs := objs s; ctrs := ctrs s; members := members s; subs := subs s; thr := remove_N t (thr s) |}).
+    + set (s0 := {| objs := objs s; ctrs := ctrs s; members := members s; subs := subs s; thr := remove_N t (thr s); rds := rds s |}).
       assert (G0 : Good s0 ids) by (apply good_thr; exact G).
       destruct (assoc_N e (objs s)) as [o|] eqn:Eo; [|exfalso; exact (g_thr _ _ G _ _ _ _ Et Eo)].
       destruct (create_inv s0 ids e ty role o G0 Eo) as [id [new [Hout [Hv Hi]]]].
@@ -501,6 +566,19 @@ Proof.
   - (* Read *)
     rewrite (render_reply_exp s ids p G). rewrite judge_announce_ok by apply self_res_exp_reply.
     split; [reflexivity|]. exists ids. split; [reflexivity | exact G].
+  - (* ReadBegin *)
+    destruct (assoc_N t (rds s)) as [x|] eqn:Et; simpl; rewrite ?expect_ok; simpl.
+    + split; [reflexivity|]. exists ids. split; [reflexivity | exact G].
+    + split; [reflexivity|]. exists ids. split; [reflexivity | apply good_rds; exact G].
+  - (* ReadEnd *)
+    destruct (assoc_N t (rds s)) as [[p l]|] eqn:Et; simpl; rewrite ?expect_ok; simpl.
+    + set (s1 := {| objs := objs s; ctrs := ctrs s; members := members s; subs := subs s; thr := thr s;
+                    rds := remove_N t (rds s) |}).
+      assert (G1 : Good s1 ids) by (apply good_rds; exact G).
+      change (judge_reply (members s1) (render_reply_of s1 p l) (exp_reply_of (mst_of s1 ids) p l) = [] /\
+              Inv s1 (mst_of s1 ids)).
+      split; [apply judge_reply_ok; exact G1 | exists ids; split; [reflexivity | exact G1]].
+    + split; [reflexivity|]. exists ids. split; [reflexivity | exact G].
 Qed.
 
 Theorem run_accepted_from s m sc ops :
@@ -508,7 +586,7 @@ Theorem run_accepted_from s m sc ops :
 Proof.
   unfold run. revert s m sc. induction ops as [|o ops IH]; intros s m sc I; [split; [reflexivity | exact I]|].
   simpl. pose proof (step_inv s m o I) as Hs. unfold step in Hs.
-  destruct (step_gen true s o) as [s1 out]. destruct (run_gen true s1 ops) as [s2 tr] eqn:Er. simpl in *.
+  destruct (step_gen true false s o) as [s1 out]. destruct (run_gen true false s1 ops) as [s2 tr] eqn:Er. simpl in *.
   destruct (mon m o out) as [m1 v]. simpl in *. destruct Hs as [-> I1]. simpl.
   specialize (IH s1 m1 (scope sc o) I1). rewrite Er in IH. exact IH.
 Qed.
@@ -553,3 +631,95 @@ Qed.
 Theorem type_role_unique ops e o :
   assoc_N e (objs (fst (run init ops))) = Some o -> NoDup (map tr_of (e_feats o)).
 Proof. intros Ho. destruct (run_good ops) as [ids G]. exact (g_tr _ _ G _ _ Ho). Qed.
+
+(* ---------- overlapping discovery reads ---------- *)
+
+Lemma run_app s a b :
+  run s (a ++ b) =
+  let '(s1, t1) := run s a in let '(s2, t2) := run s1 b in (s2, t1 ++ t2).
+Proof.
+  unfold run. revert s. induction a as [|o a IH]; intros s; simpl.
+  - destruct (run_gen true false s b); reflexivity.
+  - destruct (step_gen true false s o) as [s1 out]. rewrite IH.
+    destruct (run_gen true false s1 a) as [s2 t1]. destruct (run_gen true false s2 b) as [s3 t2]. reflexivity.
+Qed.
+
+(* the pending reads change only at ReadBegin / ReadEnd *)
+Lemma step_rds s o :
+  rds (fst (step s o)) =
+  match o with
+  | ReadBegin t p => match assoc_N t (rds s) with Some _ => rds s | None => (t, (p, members s)) :: rds s end
+  | ReadEnd t => match assoc_N t (rds s) with Some _ => remove_N t (rds s) | None => rds s end
+  | _ => rds s
+  end.
+Proof.
+  destruct o as [e ty|e|e|e ty role desc fns|e fid fn r w ps|e|e ty role|t e ty role|t|p c|p c|p|t p|t];
+    unfold step, step_gen, create, take_id, set_objs; simpl;
+    repeat (match goal with
+            | |- context [match ?x with _ => _ end] => destruct x; simpl
+            end); reflexivity.
+Qed.
+
+(* a read that has begun keeps the entity list it took, whatever else happens, until it ends *)
+Lemma pending_kept s o t x :
+  assoc_N t (rds s) = Some x -> o <> ReadEnd t -> assoc_N t (rds (fst (step s o))) = Some x.
+Proof.
+  intros Hx Hne. rewrite step_rds. destruct o; try exact Hx.
+  - destruct (assoc_N t0 (rds s)) eqn:E0; [exact Hx|]. simpl.
+    destruct (N.eqb_spec t t0) as [->|_]; [congruence | exact Hx].
+  - destruct (assoc_N t0 (rds s)) eqn:E0; [|exact Hx]. rewrite lt_assoc_remove.
+    destruct (N.eqb_spec t t0) as [->|_]; [congruence | exact Hx].
+Qed.
+
+Lemma pending_kept_run s ops t x :
+  assoc_N t (rds s) = Some x -> ~ In (ReadEnd t) ops -> assoc_N t (rds (fst (run s ops))) = Some x.
+Proof.
+  unfold run. revert s. induction ops as [|o ops IH]; intros s Hx Hn; simpl; [exact Hx|].
+  pose proof (pending_kept s o t x Hx) as Hk. unfold step in Hk.
+  destruct (step_gen true false s o) as [s1 out]. specialize (IH s1).
+  destruct (run_gen true false s1 ops) as [s2 tr]. simpl in *. apply IH.
+  - apply Hk. intros ->. apply Hn. now left.
+  - intros Hin. apply Hn. now right.
+Qed.
+
+(* Snapshot semantics.  Whatever happens between the ReadBegin of thread t (after any history
+   ops1) and its ReadEnd (any operations ops2 of any threads: additions and removals of
+   entities, features and functions, GetOrAddFeature steps, other reads), the reply lists
+   exactly the entities that were members at its ReadBegin, each as it is at ReadEnd. *)
+Theorem read_snapshot ops1 t p ops2 :
+  let s1 := fst (run init ops1) in
+  let s2 := fst (run init (ops1 ++ ReadBegin t p :: ops2)) in
+  assoc_N t (rds s1) = None -> ~ In (ReadEnd t) ops2 ->
+  snd (step s2 (ReadEnd t)) = render_reply_of s2 p (members s1).
+Proof.
+  intros s1 s2 Hfree Hn.
+  assert (Hp : assoc_N t (rds s2) = Some (p, members s1)).
+  { unfold s2. rewrite run_app. fold s1. destruct (run init ops1) as [s1' t1] eqn:E1. simpl in s1. subst s1.
+    change (ReadBegin t p :: ops2) with ([ReadBegin t p] ++ ops2). rewrite run_app.
+    assert (Hb : run s1' [ReadBegin t p] =
+                 ({| objs := objs s1'; ctrs := ctrs s1'; members := members s1'; subs := subs s1'; thr := thr s1';
+                     rds := (t, (p, members s1')) :: rds s1' |}, [(ReadBegin t p, [Parked])])).
+    { unfold run. simpl. rewrite Hfree. reflexivity. }
+    rewrite Hb.
+    set (sb := {| objs := objs s1'; ctrs := ctrs s1'; members := members s1'; subs := subs s1'; thr := thr s1';
+                  rds := (t, (p, members s1')) :: rds s1' |}).
+    pose proof (pending_kept_run sb ops2 t (p, members s1')) as Hk.
+    destruct (run sb ops2) as [s3 t3]. simpl in *. apply Hk; [|exact Hn].
+    rewrite N.eqb_refl. reflexivity. }
+  unfold step, step_gen. rewrite Hp. reflexivity.
+Qed.
+
+(* the uninterrupted read is ReadBegin; ReadEnd on a free thread *)
+Theorem read_atomic s t p :
+  assoc_N t (rds s) = None ->
+  let sb := fst (step s (ReadBegin t p)) in
+  snd (step s (ReadBegin t p)) = [Parked] /\
+  snd (step sb (ReadEnd t)) = snd (step s (Read p)) /\ fst (step sb (ReadEnd t)) = s.
+Proof.
+  intros Hfree. unfold step, step_gen. simpl. rewrite Hfree. simpl. rewrite ?N.eqb_refl. simpl. rewrite ?N.eqb_refl.
+  split; [reflexivity|]. split; [reflexivity|].
+  assert (Hr : forall (l : list (N * (N * list N))), assoc_N t l = None -> remove_N t l = l).
+  { induction l as [|[k v] l IH]; simpl; [reflexivity|]. destruct (N.eqb t k); [discriminate|].
+    intros H. rewrite (IH H). reflexivity. }
+  rewrite (Hr _ Hfree). destruct s; reflexivity.
+Qed.
